@@ -55,6 +55,11 @@ def gen_tuples(rng, n):
         cons = rng.choice([1, 2, 3, 6, 1, 3, 4, 5, 7, 0])
         sig = rng.randint(1, 32)
         out.append((k7, W, F, d, p, R, r, cons, sig))
+    # rough range exactly zero (whole 0, fraction 0) or all ones below the marker, with positive / negative / zero fine values
+    for k7 in (0, 1):
+        for W, F in ((0, 0), (0, 1), (1, 0), (254, 1023), (255, 0), (255, 1023)):
+            for d, p in ((1, 1), (1000, 2000), (-1, -1), (0, 0)):
+                out.append((k7, W, F, d, p, (5 if k7 else 0), (7 if k7 else 0), rng.choice([1, 2, 3, 6]), rng.randint(1, 32)))
     # every +-2^k exactly, in each signed field
     for k7 in (0, 1):
         wd, wp = (20, 24) if k7 else (15, 22)
